@@ -776,7 +776,7 @@ def run(tier, replay=None):
     # and EsInv (ECMA-262 6.1.7.3 along every step of the reference graph) are checked in every state
     cfg = write_cfg(tier, fixes, conf["H"], conf["wide"], GATE_INVS + ["Emit"])
     t0 = time.time()
-    r, n_exh = stream_tlc(cfg, tally, tier, workers=3, timeout=2400)
+    r, n_exh = stream_tlc(cfg, tally, tier, workers=3, timeout=7000)
     states += r["distinct"]
     trans += r["states"]
     cmds.append(r["cmd"])
@@ -785,7 +785,7 @@ def run(tier, replay=None):
     if conf["sim"]:
         num, hsim, depth = conf["sim"]
         cfg = write_cfg(tier + "-sim", fixes, hsim, range(1, NCAT + 1), ["Emit"])
-        r, n_sim = stream_tlc(cfg, tally, "simulate", workers=1, simulate=num, depth=depth, tseed=vlib.seed(), timeout=900)
+        r, n_sim = stream_tlc(cfg, tally, "simulate", workers=1, simulate=num, depth=depth, tseed=vlib.seed(), timeout=3000)
         cmds.append(r["cmd"])
         ck.cov["simulated_histories"] = n_sim
         vlib.log(f"[C06] TLC -simulate: {n_sim} distinct histories of {hsim} free operations")
